@@ -2302,10 +2302,28 @@ let op_ok l =
        | [] -> true
        | _ :: _ -> false)) (versions_own [] l)
 
+(** val is_failure : pev -> bool **)
+
+let is_failure = function
+| PRLock (_, ok, w) -> if ok then false else Z.eqb w (Zpos XH)
+| PCheck (_, ok, _) -> if ok then false else true
+| PUpgrade (_, ok, _) -> if ok then false else true
+| _ -> false
+
+(** val scan_loads_covered : pev list -> bool **)
+
+let rec scan_loads_covered = function
+| [] -> true
+| e :: l' ->
+  (&&)
+    (match e with
+     | PLoad n -> existsb (fun x -> (||) (validates n x) (is_failure x)) l'
+     | _ -> true) (scan_loads_covered l')
+
 (** val scan_ok : pev list -> bool **)
 
 let scan_ok l =
-  versions_own [] l
+  (&&) (versions_own [] l) (scan_loads_covered l)
 
 type tid0 = nat
 
